@@ -12,6 +12,7 @@ from __future__ import annotations
 
 import asyncio
 import itertools
+import zlib
 
 from hypothesis import strategies as st
 
@@ -30,7 +31,10 @@ RULE = (
     'opcode 0x00..0xFF - defined classes enumerated from ATT_PDU.pdu_classes with field-driven adversarial '
     'parameters, truncated/padded variants, undefined opcodes with random payloads - plus notify_subscribers/'
     'indicate_subscribers calls and a confirmation policy) on the fixed bearer or on 1..2 enhanced bearers; '
-    'sweep: every opcode 0x00..0xFF x generated parameterisations x 3 fixed databases x MTUs. '
+    'sweep: every opcode 0x00..0xFF x generated parameterisations x 3 fixed databases x MTUs; fill: dense databases '
+    '(3..12 services of one UUID, 3..12 same-typed equal-valued characteristics with descriptors) x ATT_MTU 23..48 x '
+    'one full-range multi-entry request of each kind (responses assembled from several attributes, at every residue of '
+    'ATT_MTU modulo the entry size). '
     'non-trivial = some window is not a plain successful single-attribute read: Error Response, '
     'multi-attribute response, PDU filled to ATT_MTU, malformed request, undefined/command/wrong-way opcode, '
     'or a server-initiated notification/indication; distinct by (database, MTUs, PDU bytes, operations).'
@@ -662,6 +666,62 @@ def eatt_case():
     }))
 
 
+FILL_KINDS = ('fbtv_service', 'fbtv_value', 'rbt_value', 'rbt_decl', 'rbt_desc', 'rbgt', 'find_info',
+              'read_multiple', 'read_multiple_variable')
+
+
+def fill_build(kind, slack, n, vl, wide, k, sec):
+    """One case of the enumerated `fill` family: a dense database (n services of one UUID, n same-typed
+    characteristics with equal-length equal values, each with a descriptor) and one full-range request of a
+    multi-entry kind, at an ATT_MTU that `j` entries fill exactly (slack 0), leave 1..3 bytes free, or miss by one."""
+    su, cu = (U128_A, U128_B) if wide else (u16(0x180F), u16(0x1234))
+    services = [{'uuid': su, 'primary': True, 'inc': [], 'chars': []} for _ in range(n)]
+    services[0] = dict(services[0], chars=[_ch(cu, 0x02, 0x01, 'static', vl, rep=n, descs=[_de(u16(0x2901), 0x01, 'static', vl)])])
+    full = ('lit', u16(1) + u16(0xFFFF))
+    # (response header, entry size, entries available) of the response the request asks for
+    if kind == 'fbtv_service':
+        t, geo = {'op': 0x06, 'parts': [full, ('lit', u16(0x2800) + su)]}, (1, 4, n)
+    elif kind == 'fbtv_value':
+        t, geo = {'op': 0x06, 'parts': [full, ('lit', cu[:2] + pattern(vl))]}, (1, 4, n)
+    elif kind == 'rbt_value':
+        t, geo = {'op': 0x08, 'parts': [full, ('lit', cu)]}, (2, 2 + vl, n)
+    elif kind == 'rbt_decl':
+        t, geo = {'op': 0x08, 'parts': [full, ('lit', u16(0x2803))]}, (2, 2 + 3 + len(cu), n)
+    elif kind == 'rbt_desc':
+        t, geo = {'op': 0x08, 'parts': [full, ('lit', u16(0x2901))]}, (2, 2 + vl, n)
+    elif kind == 'rbgt':
+        t, geo = {'op': 0x10, 'parts': [full, ('lit', u16(0x2800))]}, (2, 4 + len(su), n)
+    elif kind == 'find_info':
+        t, geo = {'op': 0x04, 'parts': [('lit', u16(1 + k) + u16(0xFFFF))]}, (2, 4, 3 * n)
+    elif kind == 'read_multiple':
+        t, geo = {'op': 0x0E, 'parts': [('hset', [('val', i + k) for i in range(n + 2)])]}, (1, max(1, vl), n + 2)
+    else:
+        t, geo = {'op': 0x20, 'parts': [('hset', [('val', i + k) for i in range(n + 2)])]}, (1, 2 + vl, n + 2)
+    hdr, entry, avail = geo
+    fits = [j for j in range(1, avail) if hdr + entry * j + slack >= 23]
+    mtu = min(517, hdr + entry * fits[k % len(fits)] + slack) if fits else 23
+    return {
+        'bearer': 'fixed', 'db': {'services': services}, 'server_mtu': 517, 'sec': sec, 'confirm': [], 'delays': [],
+        'ops': [('pdu', {'op': 0x02, 'parts': [('lit', u16(mtu))]}, 'wait', 0), ('pdu', t, 'wait', 0), ('pdu', LIVENESS, 'wait', 0)],
+    }
+
+
+def fill_cases(ctx):
+    """The enumerated family (plain loops): exhaustive over the listed axes in the thorough tier (sharded), a
+    quarter of it (rotated by the seed) in the quick tier."""
+    i = 0
+    rot = ctx.subseed('fill') % 4
+    for kind in FILL_KINDS:
+        for slack in (0, 1, 2, 3, -1):
+            for n in (7, 9, 12):
+                for vl in (1, 2, 5, 20):
+                    for wide in (False, True):
+                        i += 1
+                        if (zlib.crc32(b'%d' % i) % 4 != rot) if ctx.quick else (i % ctx.nshards != ctx.shard):
+                            continue
+                        yield fill_build(kind, slack, n, vl, wide, i % 5, [0, 0] if i % 3 else [1, 1])
+
+
 def sweep_case(op: int):
     mt = st.sampled_from([(23, 23), (23, 517), (64, 100), (517, 517), (30, 200), (247, 185)])
     return st.tuples(st.integers(0, len(FIXED_DBS) - 1), mt, opcode_template(op),
@@ -1021,6 +1081,8 @@ def analyse(ctx, case, S, loop) -> None:
                         labels.add(f'rsp:{opname(p[0])}')
                         if len(p) == bound[b]:
                             labels.add(f'rsp_fills_mtu:{opname(p[0])}')
+                        elif p[0] in MULTI_RSP and bound[b] - len(p) <= 4:
+                            labels.add(f'rsp_nearly_fills_mtu:{opname(p[0])}')  # the next entry did not fit
                         if p[0] in MULTI_RSP:
                             nontrivial = True
                 if malformed(q):
@@ -1105,6 +1167,11 @@ def run(ctx) -> None:
     ctx.extra['defined_classes'] = len(att.ATT_PDU.pdu_classes)
     # 2. generated databases and operation sequences, fixed bearer
     ctx.hyp('fixed', lambda c: run_case(ctx, c), fixed_case(), max_examples=ctx.n(850, 72000))
+    # 2b. multi-entry responses on dense databases at every residue of ATT_MTU modulo the entry size
+    for c in fill_cases(ctx):
+        if ctx.out_of_time():
+            break
+        run_case(ctx, c)
     # 3. enhanced bearers
     ctx.hyp('eatt', lambda c: run_case(ctx, c), eatt_case(), max_examples=ctx.n(320, 24000))
     for label, n in (
@@ -1118,7 +1185,10 @@ def run(ctx) -> None:
         ('rsp:FIND_INFORMATION_RESPONSE', 10), ('mtu>23', 50), ('db:value_512', 10), ('db:uuid128', 10),
         ('bearer:fixed', 50), ('bearer:eatt', 20), ('bearer:eatt_two_channels', 5), ('sequence', 50),
         ('notification_sent', 5), ('indication_sent', 10), ('indicate:two_or_more_in_window', 3),
-        ('indicate:confirm_delayed', 2),
+        ('indicate:confirm_delayed', 2), ('rsp_nearly_fills_mtu:FIND_BY_TYPE_VALUE_RESPONSE', 5),
+        ('rsp_fills_mtu:READ_BY_TYPE_RESPONSE', 2), ('rsp_fills_mtu:READ_BY_GROUP_TYPE_RESPONSE', 1),
+        ('rsp_fills_mtu:FIND_INFORMATION_RESPONSE', 2), ('rsp_fills_mtu:READ_MULTIPLE_RESPONSE', 2),
+        ('rsp_fills_mtu:READ_MULTIPLE_VARIABLE_RESPONSE', 2), ('rsp_nearly_fills_mtu:READ_BY_TYPE_RESPONSE', 5),
     ):
         ctx.floor(label, n)
 
